@@ -346,7 +346,14 @@ func (x *Exec) call(st *State, fr *Frame, instr ssa.Instruction, cc *ssa.CallCom
 			}
 		}
 		key := ifaceKey(cc.Value.Type(), cc.Method.Name())
-		fc := x.p.lookupDyn(fr, key)
+		// caller-specific interface contract "<caller>-><iface>.<method>": what this caller may assume of (and owes to)
+		// the implementation in its own context; it may mention the caller's parameters and named locals
+		fc := x.p.lookupDyn(fr, x.key+"->"+shortIface(key))
+		if fc != nil {
+			key = x.key + "->" + shortIface(key)
+		} else {
+			fc = x.p.lookupDyn(fr, key)
+		}
 		if fc == nil {
 			panic(unsupported("no interface contract for " + key))
 		}
@@ -456,12 +463,14 @@ func (p *Program) lookupDyn(fr *Frame, key string) *FuncContract {
 func (x *Exec) callStatic(st *State, fr *Frame, instr ssa.Instruction, fn *ssa.Function, args []Value, pos token.Pos) bool {
 	fc := x.p.contractFor(fn)
 	pkg, key := funcKey(fn)
+	callerSpecific := false
 	// caller-specific contract of an external: "<caller>-><extern>" (e.g. what a particular sync.Pool returns)
 	if !x.p.verified[pkg] {
 		_, ckey := funcKey(fr.fn)
 		if o := x.p.lookupDyn(fr, ckey+"->"+externKey(pkg, key)); o != nil {
 			fc = o
 			x.p.trusted[ckey+"->"+externKey(pkg, key)] = true
+			callerSpecific = true
 		}
 	}
 	inRepo := x.p.verified[pkg]
@@ -522,7 +531,11 @@ func (x *Exec) callStatic(st *State, fr *Frame, instr ssa.Instruction, fn *ssa.F
 			}
 		}
 	}
-	bind(x.applyContract(st, fr, fc, key, names, args, fn.Signature.Results(), pos))
+	akey := key
+	if callerSpecific {
+		akey = x.key + "->" + key // lets the contract mention the caller's parameters and named locals
+	}
+	bind(x.applyContract(st, fr, fc, akey, names, args, fn.Signature.Results(), pos))
 	return false
 }
 
@@ -578,6 +591,20 @@ func (x *Exec) applyContract(st *State, fr *Frame, fc *FuncContract, key string,
 			vars[names[i]] = a
 		}
 		vars[fmt.Sprintf("arg%d", i)] = a
+	}
+	if strings.Contains(key, "->") {
+		for n, v := range x.params {
+			if _, taken := vars[n]; !taken {
+				vars[n] = v
+			}
+		}
+		for f := fr; f != nil; f = f.parent {
+			for n, v := range f.names {
+				if _, taken := vars[n]; !taken {
+					vars[n] = v
+				}
+			}
+		}
 	}
 	site := x.pos(pos)
 	pre := st.heap.clone()
@@ -1502,4 +1529,14 @@ func (x *Exec) staticRecursion(st *State) {
 		}
 	}
 	scan(x.fn)
+}
+
+// shortIface: "github.com/pion/stun/v3.ClientAgent.Stop" -> "ClientAgent.Stop" for interfaces of the verified packages
+func shortIface(key string) string {
+	for _, pkg := range []string{pkgStun + ".", pkgHmac + "."} {
+		if strings.HasPrefix(key, pkg) {
+			return strings.TrimPrefix(key, pkg)
+		}
+	}
+	return key
 }
